@@ -1300,7 +1300,7 @@ fn check_c09_image(ctx: &mut Ctx, cfg: &crate::cfg::Cfg, bytes: &[u8]) {
         return;
     }
     let ty = Ty::of_cfg(cfg).unwrap();
-    match obs::parse_typed(ty, &data) {
+    match obs::parse_typed_fixed_layout(ty, &data) {
         Err(p) => ctx.violate("well-formed-accepted", kind, "panic", case, "accepted", format!("panic at {}: {}", short_site(&p.site), p.msg)),
         Ok(Err(e)) => ctx.violate(
             "well-formed-accepted",
